@@ -38,6 +38,14 @@ type c01Op struct {
 	CopyLen  int  `json:"copy_len,omitempty"`
 }
 
+// c01TagHeader spells the x-amz-tagging header: spaces as %20 or, for every other data seed, as "+".
+func c01TagHeader(op c01Op) string {
+	if op.DataSeed%2 == 1 {
+		return s3c.TaggingHeaderForm(op.Tags)
+	}
+	return s3c.TaggingHeader(op.Tags)
+}
+
 type c01Prog struct {
 	Keys      []string `json:"keys"`
 	Versioned bool     `json:"versioned,omitempty"` // bucket versioning enabled
@@ -403,7 +411,7 @@ func (c01) Exec(c *core.Case) (out *core.Outcome) {
 			data := s3c.GenData(op.DataSeed, op.Size)
 			h := append(append([]KV{}, op.Hdrs...), op.Meta...)
 			if len(op.Tags) > 0 {
-				h = append(h, KV{K: "X-Amz-Tagging", V: s3c.TaggingHeader(op.Tags)})
+				h = append(h, KV{K: "X-Amz-Tagging", V: c01TagHeader(op)})
 			}
 			if op.CkHeader != "" {
 				h = append(h, KV{K: "X-Amz-Checksum-" + op.CkHeader, V: s3c.Checksum(op.CkHeader, data)})
@@ -430,7 +438,7 @@ func (c01) Exec(c *core.Case) (out *core.Outcome) {
 		case "mpu":
 			h := append(append([]KV{}, op.Hdrs...), op.Meta...)
 			if len(op.Tags) > 0 {
-				h = append(h, KV{K: "X-Amz-Tagging", V: s3c.TaggingHeader(op.Tags)})
+				h = append(h, KV{K: "X-Amz-Tagging", V: c01TagHeader(op)})
 			}
 			if op.Algo != "" {
 				h = append(h, KV{K: "X-Amz-Checksum-Algorithm", V: strings.ToUpper(op.Algo)})
@@ -533,7 +541,7 @@ func (c01) Exec(c *core.Case) (out *core.Outcome) {
 				h = append(h, KV{K: "X-Amz-Tagging-Directive", V: op.TagDir})
 			}
 			if op.TagDir == "REPLACE" && len(op.Tags) > 0 {
-				h = append(h, KV{K: "X-Amz-Tagging", V: s3c.TaggingHeader(op.Tags)})
+				h = append(h, KV{K: "X-Amz-Tagging", V: c01TagHeader(op)})
 			}
 			if op.Algo != "" {
 				h = append(h, KV{K: "X-Amz-Checksum-Algorithm", V: strings.ToUpper(op.Algo)})
